@@ -142,11 +142,20 @@ type c11State struct {
 	facts   c11Conj
 	callRes map[*ast.CallExpr][]c11Val
 	visits  map[*cfg.Block]int
+	// field-sensitive mode (c11fields.go): current values of fields of local structs, by path key
+	store map[string]c11Val
+	// loops judged by fixpoint (c11fields.go): heads whose generic iteration this path is inside of
+	inLoop   map[*cfg.Block]bool
+	skipHead *cfg.Block
+	// rule-specific marks carried along the path (immutable values)
+	pend *c11Pend
+	nl   *c11Pend
 }
 
 func c11NewState() *c11State {
 	return &c11State{ints: map[types.Object]c11Lin{}, bools: map[types.Object]*c11BoolVal{}, alias: map[types.Object]c11Path{},
-		epoch: map[types.Object]int{}, callRes: map[*ast.CallExpr][]c11Val{}, visits: map[*cfg.Block]int{}}
+		epoch: map[types.Object]int{}, callRes: map[*ast.CallExpr][]c11Val{}, visits: map[*cfg.Block]int{},
+		store: map[string]c11Val{}, inLoop: map[*cfg.Block]bool{}}
 }
 
 func (s *c11State) clone() *c11State {
@@ -169,6 +178,13 @@ func (s *c11State) clone() *c11State {
 	for k, v := range s.visits {
 		n.visits[k] = v
 	}
+	for k, v := range s.store {
+		n.store[k] = v
+	}
+	for k, v := range s.inLoop {
+		n.inLoop[k] = v
+	}
+	n.skipHead, n.pend, n.nl = s.skipHead, s.pend, s.nl
 	n.facts = append(c11Conj(nil), s.facts...)
 	return n
 }
@@ -181,6 +197,16 @@ type c11Frame struct {
 	addr     map[types.Object]bool // variables whose address is taken or that a closure captures
 	onNode   func(st *c11State, l Loc, n ast.Node)
 	onReturn func(st *c11State, res []ast.Expr)
+	// onLoopHead is called when a path enters a loop head (target of a back edge), before the visit is counted;
+	// true = the path ends here (c11loop.go: loops judged by induction instead of unrolling)
+	heads      map[*cfg.Block]bool
+	onLoopHead func(st *c11State, b *cfg.Block) bool
+	// field-sensitive mode: loops by fixpoint; onStop is called when a path enters any loop head (from outside or
+	// over a back edge); onBranch when a path takes the edge of polarity pol out of the conditional block b
+	loopFix  bool
+	onStop   func(st *c11State, b *cfg.Block)
+	onBranch func(st *c11State, b *cfg.Block, pol bool)
+	backs    map[*cfg.Block]*[]*c11State
 }
 
 type c11Exec struct {
@@ -194,10 +220,19 @@ type c11Exec struct {
 	busy     map[*types.Func]bool
 	pureMemo map[*types.Func]int // 1 pure, 2 impure
 	depth    int
+	// field-sensitive mode: local structs are tracked field by field, struct assignments copy, helpers that
+	// write through pointer parameters are executed in the caller's context, loops are judged by fixpoint
+	fields    bool
+	quiet     int             // > 0 while a loop fixpoint is being computed: hooks must not report
+	widthSyms map[string]bool // symbols that are the Width of a Character
+	inlMemo   map[*types.Func]int
+	maxSteps  int
+	owned     map[string]bool // root symbols of objects whose fields the store tracks
 }
 
 func c11NewExec(p *Program, info *types.Info, pkg *types.Package) *c11Exec {
-	return &c11Exec{p: p, info: info, pkg: pkg, disp: map[string]string{}, busy: map[*types.Func]bool{}, pureMemo: map[*types.Func]int{}}
+	return &c11Exec{p: p, info: info, pkg: pkg, disp: map[string]string{}, busy: map[*types.Func]bool{}, pureMemo: map[*types.Func]int{},
+		widthSyms: map[string]bool{}, inlMemo: map[*types.Func]int{}, maxSteps: c11MaxSteps, owned: map[string]bool{}}
 }
 
 const c11MaxSteps = 200000
@@ -255,7 +290,13 @@ func (x *c11Exec) resolvePath(st *c11State, e ast.Expr) c11Path {
 				return b
 			}
 			parts := append(append([]string(nil), b.parts...), t.Sel.Name)
-			return c11Path{root: b.root, parts: parts, ok: true}
+			p := c11Path{root: b.root, parts: parts, ok: true}
+			if x.fields {
+				if v, ok := st.store[p.key()]; ok && v.kind == 'p' {
+					return v.path
+				}
+			}
+			return p
 		}
 		if _, ok := x.info.Selections[t]; !ok {
 			if v, ok := x.info.ObjectOf(t.Sel).(*types.Var); ok {
@@ -305,7 +346,15 @@ func (x *c11Exec) evalInt(st *c11State, e ast.Expr) c11Lin {
 		}
 	case *ast.SelectorExpr, *ast.StarExpr:
 		if p := x.resolvePath(st, e); p.ok {
-			return c11Sym(x.pathSym(p, e))
+			if x.fields {
+				if v, ok := st.store[p.key()]; ok && v.kind == 'i' {
+					x.noteWidth(e, v.lin)
+					return v.lin
+				}
+			}
+			l := c11Sym(x.pathSym(p, e))
+			x.noteWidth(e, l)
+			return l
 		}
 	case *ast.UnaryExpr:
 		switch t.Op {
@@ -434,6 +483,14 @@ func (x *c11Exec) dnf(st *c11State, e ast.Expr, pol bool) c11DNF {
 		}
 	case *ast.SelectorExpr:
 		if p := x.resolvePath(st, e); p.ok {
+			if x.fields {
+				if v, ok := st.store[p.key()]; ok && v.kind == 'b' && v.bv != nil {
+					if pol {
+						return v.bv.t
+					}
+					return v.bv.f
+				}
+			}
 			return x.opaqueBool(x.pathSym(p, e), pol)
 		}
 	case *ast.CallExpr:
@@ -461,6 +518,12 @@ func (x *c11Exec) cmpExprs(st *c11State, a ast.Expr, op token.Token, b ast.Expr,
 			return c11True()
 		}
 		if p := x.resolvePath(st, other); p.ok {
+			if p.root == c11NilRoot {
+				if op == token.EQL {
+					return c11True()
+				}
+				return c11False()
+			}
 			return c11DNF{{c11Fact{kind: 'n', key: x.pathSym(p, other), pol: op == token.EQL}}}
 		}
 		return c11True()
@@ -627,6 +690,11 @@ func (x *c11Exec) havocObj(st *c11State, o types.Object) {
 		return
 	}
 	st.epoch[o]++
+	if x.fields && c11IsStruct(o.Type()) {
+		if v, ok := o.(*types.Var); ok && !v.IsField() && (v.Pkg() == nil || v.Parent() != v.Pkg().Scope()) {
+			x.owned[x.objSym(st, o)] = true
+		}
+	}
 	if _, ok := st.ints[o]; ok || x.isIntType(o.Type()) {
 		st.ints[o] = c11Sym(x.fresh(o.Name()))
 	}
@@ -729,9 +797,18 @@ func (x *c11Exec) evalVal(st *c11State, e ast.Expr) c11Val {
 }
 
 func (x *c11Exec) assign(st *c11State, fr *c11Frame, lhs ast.Expr, v c11Val) {
+	x.assignE(st, fr, lhs, nil, v, nil)
+}
+
+// assignE: rhs (may be nil) is the expression v was computed from; sv (may be nil) is its pre-evaluated
+// structured value (field-sensitive mode, struct-typed left-hand sides).
+func (x *c11Exec) assignE(st *c11State, fr *c11Frame, lhs ast.Expr, rhs ast.Expr, v c11Val, sv *c11SV) {
 	lhs = unparen(lhs)
 	id, ok := lhs.(*ast.Ident)
 	if !ok {
+		if x.fields && x.storeThrough(st, fr, lhs, v, sv) {
+			return
+		}
 		x.writeThrough(st, fr, lhs)
 		return
 	}
@@ -750,6 +827,13 @@ func (x *c11Exec) assign(st *c11State, fr *c11Frame, lhs ast.Expr, v c11Val) {
 	}
 	// anything that aliased o loses its meaning
 	x.havocObj(st, o)
+	if x.fields && c11IsStruct(vr.Type()) {
+		if sv == nil {
+			sv = &c11SV{kind: '?'}
+		}
+		x.writeSV(st, c11Path{root: x.objSym(st, o), ok: true}, vr.Type(), sv)
+		return
+	}
 	switch v.kind {
 	case 'i':
 		st.ints[o] = v.lin
@@ -772,11 +856,17 @@ func (x *c11Exec) execNode(st *c11State, fr *c11Frame, n ast.Node, isCond bool) 
 		case token.DEFINE, token.ASSIGN:
 			if len(s.Lhs) == len(s.Rhs) {
 				vals := make([]c11Val, len(s.Rhs))
+				svs := make([]*c11SV, len(s.Rhs))
 				for i, r := range s.Rhs {
 					vals[i] = x.evalVal(st, r)
+					if x.fields {
+						if t := x.info.TypeOf(s.Lhs[i]); t != nil && c11IsStruct(t) {
+							svs[i] = x.evalSV(st, t, r, 0)
+						}
+					}
 				}
 				for i, l := range s.Lhs {
-					x.assign(st, fr, l, vals[i])
+					x.assignE(st, fr, l, s.Rhs[i], vals[i], svs[i])
 				}
 				return
 			}
@@ -797,7 +887,8 @@ func (x *c11Exec) execNode(st *c11State, fr *c11Frame, n ast.Node, isCond bool) 
 			}
 		case token.ADD_ASSIGN, token.SUB_ASSIGN:
 			if len(s.Lhs) == 1 && len(s.Rhs) == 1 && x.isInt(s.Lhs[0]) {
-				if _, ok := unparen(s.Lhs[0]).(*ast.Ident); ok {
+				_, isID := unparen(s.Lhs[0]).(*ast.Ident)
+				if _, isSel := unparen(s.Lhs[0]).(*ast.SelectorExpr); isID || (x.fields && isSel) {
 					sign := int64(1)
 					if s.Tok == token.SUB_ASSIGN {
 						sign = -1
@@ -816,7 +907,8 @@ func (x *c11Exec) execNode(st *c11State, fr *c11Frame, n ast.Node, isCond bool) 
 			}
 		}
 	case *ast.IncDecStmt:
-		if _, ok := unparen(s.X).(*ast.Ident); ok && x.isInt(s.X) {
+		_, isID := unparen(s.X).(*ast.Ident)
+		if _, isSel := unparen(s.X).(*ast.SelectorExpr); (isID || (x.fields && isSel)) && x.isInt(s.X) {
 			d := int64(1)
 			if s.Tok == token.DEC {
 				d = -1
@@ -850,11 +942,17 @@ func (x *c11Exec) execNode(st *c11State, fr *c11Frame, n ast.Node, isCond bool) 
 func (x *c11Exec) valueSpec(st *c11State, fr *c11Frame, vs *ast.ValueSpec) {
 	if len(vs.Values) == len(vs.Names) {
 		vals := make([]c11Val, len(vs.Values))
+		svs := make([]*c11SV, len(vs.Values))
 		for i, r := range vs.Values {
 			vals[i] = x.evalVal(st, r)
+			if x.fields {
+				if t := x.info.TypeOf(vs.Names[i]); t != nil && c11IsStruct(t) {
+					svs[i] = x.evalSV(st, t, r, 0)
+				}
+			}
 		}
 		for i, nm := range vs.Names {
-			x.assign(st, fr, nm, vals[i])
+			x.assignE(st, fr, nm, vs.Values[i], vals[i], svs[i])
 		}
 		return
 	}
@@ -862,6 +960,10 @@ func (x *c11Exec) valueSpec(st *c11State, fr *c11Frame, vs *ast.ValueSpec) {
 		v := c11Val{}
 		if len(vs.Values) == 0 {
 			if t := x.info.TypeOf(nm); t != nil {
+				if x.fields && c11IsStruct(t) {
+					x.assignE(st, fr, nm, nil, v, x.evalSV(st, t, nil, 0))
+					continue
+				}
 				switch {
 				case x.isIntType(t):
 					v = c11Val{kind: 'i', lin: c11Const(0)}
@@ -1051,12 +1153,16 @@ func (x *c11Exec) pureBody(fn *types.Func) bool {
 type c11Outcome struct {
 	facts c11Conj
 	res   []c11Val
+	st    *c11State // field-sensitive mode: the callee's end state (effects through pointer parameters included)
 }
 
 // summarise evaluates call in st; nil if the callee cannot be evaluated symbolically.
 func (x *c11Exec) summarise(st *c11State, call *ast.CallExpr) []c11Outcome {
 	fn := calleeOf(x.info, call)
-	if fn == nil || x.busy[fn] || x.depth >= 4 || !x.pure(fn) {
+	if fn == nil || x.busy[fn] || x.depth >= 4 {
+		return nil
+	}
+	if !x.pure(fn) && (!x.fields || !x.inlinable(fn)) {
 		return nil
 	}
 	fi := x.p.FuncOfObj(fn)
@@ -1089,6 +1195,14 @@ func (x *c11Exec) summarise(st *c11State, call *ast.CallExpr) []c11Outcome {
 		delete(cs.bools, o)
 		delete(cs.alias, o)
 		cs.epoch[o]++ // a fresh incarnation of the parameter
+		if x.fields && c11IsStruct(o.Type()) {
+			// passed by value: the parameter is a copy
+			sv := x.evalSV(st, o.Type(), e, 0)
+			root := x.objSym(cs, o)
+			x.owned[root] = true
+			x.writeSV(cs, c11Path{root: root, ok: true}, o.Type(), sv)
+			return
+		}
 		switch v.kind {
 		case 'i':
 			cs.ints[o] = v.lin
@@ -1116,7 +1230,10 @@ func (x *c11Exec) summarise(st *c11State, call *ast.CallExpr) []c11Outcome {
 	fr.onReturn = func(rs *c11State, res []ast.Expr) {
 		o := c11Outcome{facts: append(c11Conj(nil), rs.facts...)}
 		for _, r := range res {
-			o.res = append(o.res, x.evalVal(rs, r))
+			o.res = append(o.res, x.evalResult(rs, r))
+		}
+		if x.fields {
+			o.st = rs.clone()
 		}
 		outs = append(outs, o)
 	}
@@ -1126,7 +1243,11 @@ func (x *c11Exec) summarise(st *c11State, call *ast.CallExpr) []c11Outcome {
 	x.run(cs, fr, g.Blocks[0], 0, func(es *c11State) {
 		// fell off the end (no results)
 		if nres == 0 {
-			outs = append(outs, c11Outcome{facts: append(c11Conj(nil), es.facts...)})
+			o := c11Outcome{facts: append(c11Conj(nil), es.facts...)}
+			if x.fields {
+				o.st = es.clone()
+			}
+			outs = append(outs, o)
 		}
 	})
 	x.depth--
@@ -1182,8 +1303,22 @@ func (x *c11Exec) expandCalls(st *c11State, n ast.Node) []*c11State {
 				continue
 			}
 			for _, o := range outs {
-				ns := s.clone()
-				ns.facts = append(c11Conj(nil), o.facts...)
+				var ns *c11State
+				if o.st != nil {
+					ns = o.st.clone()
+					ns.visits = map[*cfg.Block]int{}
+					for k, v := range s.visits {
+						ns.visits[k] = v
+					}
+					ns.inLoop = map[*cfg.Block]bool{}
+					for k, v := range s.inLoop {
+						ns.inLoop[k] = v
+					}
+					ns.skipHead = s.skipHead
+				} else {
+					ns = s.clone()
+					ns.facts = append(c11Conj(nil), o.facts...)
+				}
 				ns.callRes[call] = o.res
 				next = append(next, ns)
 			}
@@ -1204,11 +1339,44 @@ func (x *c11Exec) run(st *c11State, fr *c11Frame, b *cfg.Block, idx int, atEnd f
 		return
 	}
 	x.steps++
-	if x.steps > c11MaxSteps {
+	if x.steps > x.maxSteps {
 		x.overflow = true
 		return
 	}
 	if idx == 0 {
+		if fr.loopFix && fr.heads[b] && st.skipHead != b {
+			if fr.onStop != nil {
+				fr.onStop(st, b)
+			}
+			if st.inLoop[b] {
+				// back at the head of the loop whose generic iteration this path runs through
+				if bk := fr.backs[b]; bk != nil {
+					*bk = append(*bk, st)
+				}
+				return
+			}
+			g := x.loopFixpoint(st, fr, b)
+			if x.overflow {
+				return
+			}
+			g.inLoop[b] = true
+			st = g
+		}
+		st.skipHead = nil
+		if x.fields && b.Kind == cfg.KindRangeLoop {
+			if rs, ok := b.Stmt.(*ast.RangeStmt); ok {
+				for _, e := range []ast.Expr{rs.Key, rs.Value} {
+					if id, ok := e.(*ast.Ident); ok && id.Name != "_" {
+						if o := x.info.ObjectOf(id); o != nil {
+							x.havocObj(st, o)
+						}
+					}
+				}
+			}
+		}
+		if fr.onLoopHead != nil && fr.heads[b] && fr.onLoopHead(st, b) {
+			return
+		}
 		st.visits[b]++
 		switch {
 		case st.visits[b] > 2:
@@ -1272,6 +1440,9 @@ func (x *c11Exec) leave(st *c11State, fr *c11Frame, b *cfg.Block, cond *Cond, at
 				ns := st.clone()
 				if !x.addFacts(ns, cj) {
 					continue
+				}
+				if fr.onBranch != nil {
+					fr.onBranch(ns, b, pol)
 				}
 				x.run(ns, fr, b.Succs[pi], 0, atEnd)
 			}
